@@ -190,7 +190,8 @@ def run_record_cases(rng, res, n):
             tool = rng.choice(["run", "run", "record", "mock"])
             if tool == "run":
                 variant = rng.choice(["ok", "ok", "failing_command", "no_such_command", "missing_key", "bad_metadata_dir", "timeout",
-                                      "no_command", "no_command_flag", "two_keys", "no_key", "legacy_key"])
+                                      "no_command", "no_command_flag", "two_keys", "no_key", "legacy_key",
+                                      "empty_signing_key", "empty_key", "empty_gpg"])
                 key = k
                 argv = ["-n", "st", "-m", ".", "-p", "."]
                 keyargs = ["--signing-key", priv_path(k)]
@@ -216,6 +217,9 @@ def run_record_cases(rng, res, n):
                     keyargs = []; outcome = "usage"
                 elif variant == "legacy_key":
                     keyargs = ["--key", priv_path(rsa)]; key = rsa
+                elif variant in ("empty_signing_key", "empty_key", "empty_gpg"):
+                    # e.g. an unset shell variable: --signing-key "$KEY"
+                    keyargs = ["--" + variant[len("empty_"):].replace("_", "-"), ""]; outcome = "usage"
                 if dsse:
                     argv += ["--use-dsse"]
                 if rng.random() < 0.3:
@@ -229,8 +233,11 @@ def run_record_cases(rng, res, n):
                     expect = os.path.join(d, "nope" if variant == "bad_metadata_dir" else "", "st.%s.link" % key.keyid[:8])
                 record(res, "run", {"variant": variant, "dsse": dsse, "key": key.kind}, st, outcome, expect_file=expect)
             elif tool == "record":
-                variant = rng.choice(["ok", "ok", "stop_without_start", "missing_key", "two_keys", "bad_subcommand"])
+                variant = rng.choice(["ok", "ok", "stop_without_start", "missing_key", "two_keys", "bad_subcommand",
+                                      "empty_signing_key", "empty_key", "empty_gpg"])
                 keyargs = ["--signing-key", priv_path(k)]
+                if variant.startswith("empty_"):
+                    keyargs = ["--" + variant[len("empty_"):].replace("_", "-"), ""]
                 if variant == "two_keys":
                     keyargs += ["--key", priv_path(rsa)]
                 if variant == "missing_key":
@@ -243,11 +250,11 @@ def run_record_cases(rng, res, n):
                     continue
                 if variant != "stop_without_start":
                     st, _o, _e = cli.run_main("in_toto_record", ["start", "-n", "st", "-m", "."] + keyargs + (["--use-dsse"] if dsse else []))
-                    out = {"ok": "success", "missing_key": "fail", "two_keys": "usage"}[variant]
+                    out = {"ok": "success", "missing_key": "fail", "two_keys": "usage"}.get(variant, "usage")
                     record(res, "record_start", {"variant": variant, "dsse": dsse, "key": k.kind}, st, out, expect_file=pre)
                 open("out.txt", "w").write("o")
                 st, _o, _e = cli.run_main("in_toto_record", ["stop", "-n", "st", "-p", "."] + keyargs)
-                out = {"ok": "success", "stop_without_start": "fail", "missing_key": "fail", "two_keys": "usage"}[variant]
+                out = {"ok": "success", "stop_without_start": "fail", "missing_key": "fail", "two_keys": "usage"}.get(variant, "usage")
                 record(res, "record_stop", {"variant": variant, "dsse": dsse, "key": k.kind}, st, out, expect_file=fin)
             else:
                 variant = rng.choice(["ok", "ok", "no_such_command", "no_name"])
